@@ -187,6 +187,15 @@ def apply_step(pool, step, cfg):
         f2 = f1.fuse_legs(axes=tuple(q if len(q) > 1 else q[0] for q in pos), mode="meta") if ax2 is not None else f1
         u = f2.unfuse_legs(axes=tuple(sel) if len(sel) > 1 else sel[0])
         return [f2, u]
+    if op == "outer_view":
+        _, i, kb, c = step
+        t = pool[i].consume_transpose()
+        u = t.copy()
+        sl = u.slices[kb].slcs[0]
+        u._data[slice(*sl)] *= c
+        a = yastn.tensordot(t, u, axes=((), ()))
+        r = t.ndim
+        return [a, a.transpose(tuple(range(r, 2 * r)) + tuple(range(r)))]
     if op == "svdvals":
         _, i, k, sU = step
         a = pool[i]
@@ -341,7 +350,15 @@ def propose(pool, rng, fermionic, fuse_modes=(None, None, "hard", "meta")):
     kind = rng.choice(("transpose", "conj", "scale", "add", "tensordot", "tensordot", "tensordot", "trace", "fuse", "fuse",
                        "unfuse", "svd", "qr", "add_leg", "remove_leg", "vdot", "norm", "swap_gate", "ncon", "broadcast",
                        "mask", "lazy", "diag", "flip_charges", "to_dict", "zero_block", "remove_zero_blocks", "unit_legs",
-                       "addn_lazy", "add_mismatch", "mixed_partial", "svdvals"))
+                       "addn_lazy", "add_mismatch", "mixed_partial", "svdvals", "outer_view", "outer_view"))
+    if kind == "outer_view":
+        # a = t (x) u (u = t with one block rescaled) and the lazy view of a with the two halves exchanged: same legs as a,
+        # same buffer as a, different content - a pair for later vdot / add / tensordot steps
+        i = pick(lambda t: 1 <= t.ndim <= 2 and not t.isdiag and 0 < t.size <= 24 and len(t.struct.t) >= 1
+                 and not any(is_fused(l) for l in t.get_legs()))
+        if i is None:
+            return None
+        return ("outer_view", i, rng.randrange(len(pool[i].struct.t)), rng.choice((2.5, -0.5, 3.0)))
     if kind == "svdvals":
         # values-only svd in the operand's natural axis order; the operand is read again afterwards
         i = pick(lambda t: t.ndim >= 2 and not t.isdiag and t.size > 0 and not any(is_fused(l) for l in t.get_legs()))
@@ -495,6 +512,12 @@ def propose(pool, rng, fermionic, fuse_modes=(None, None, "hard", "meta")):
         ax = [k for k, l in enumerate(pool[i].get_legs()) if sum(l.D) == 1 and len(l.t) == 1 and not is_fused(l)]
         return ("remove_leg", i, rng.choice(ax))
     if kind == "vdot":
+        if rng.random() < 0.7:
+            shared = [(i, j) for i in tens for j in tens if i != j and pool[i]._data is pool[j]._data and pool[i].ndim == pool[j].ndim
+                      and pool[i].isdiag == pool[j].isdiag
+                      and all(legs_contractible(x, y, +1) for x, y in zip(pool[i].get_legs(), pool[j].get_legs()))]
+            if shared:
+                return ("vdot",) + rng.choice(shared)
         i = pick()
         a = pool[i]
         la = a.get_legs()
